@@ -170,3 +170,15 @@ def radix_boundaries():
                         seen.add(t)
                         out.append(t)
     return out
+
+
+def trunc_aliases(text, syntax):
+    """every variant of `text` in which ONE occurrence of a character of `syntax` is replaced by a character that only
+    LOOKS like it to byte-level code: same low byte (`c as u8` truncation: U+01xx, U+100xx), so that a scanner which
+    compares truncated code points or single bytes takes a letter for syntax.  (Found missing by seed C20-7.)"""
+    out = []
+    for i, c in enumerate(text):
+        if c in syntax and ord(c) < 0x80:
+            for hi in (0x100, 0x10000):
+                out.append(text[:i] + chr(hi + ord(c)) + text[i + 1:])
+    return out
